@@ -4,7 +4,7 @@ use ntex_bytes::{Buf, BytePages, Bytes, BytesMut};
 use ntex_codec::{Decoder, Encoder};
 
 use crate::error::{DecodeError, EncodeError};
-use crate::types::{FixedHeader, QoS, packet_type};
+use crate::types::{FixedHeader, MAX_PACKET_SIZE, QoS, packet_type};
 use crate::utils::decode_variable_length;
 
 use super::{Decoded, Encoded, Publish, decode, encode};
@@ -210,7 +210,11 @@ impl Encoder for Codec {
                     return Err(EncodeError::PacketIdRequired);
                 }
 
-                let content_size = encode::get_encoded_publish_size(&pkt) as u32;
+                let content_size = encode::get_encoded_publish_size(&pkt);
+                if content_size > MAX_PACKET_SIZE as usize {
+                    return Err(EncodeError::OverMaxPacketSize);
+                }
+                let content_size = content_size as u32; // safe: checked against max packet size
                 if self.max_size.get() != 0 && content_size > self.max_size.get() {
                     return Err(EncodeError::OverMaxPacketSize);
                 }
